@@ -832,7 +832,12 @@ impl<'a> Lexer<'a> {
                         next_token = Some(t);
                         break;
                     }
-                    None => (),
+                    None => {
+                        // an error recorded for this character must not be lost by consuming further input
+                        if self.result.is_err() {
+                            break;
+                        }
+                    }
                 },
                 None => {
                     self.at_end = true;
